@@ -318,12 +318,14 @@ def rand_vals(g, n):
 
 
 PARTIAL = [
-    "var_total_points_at is stated per type group; the offsets between the four groups are covered by total_local_roundtrip / "
-    "local_total_roundtrip",
     "calc_gradient is proved to be the indicator of the entry the generated index points at (all four types) and the exact derivative of "
     "var -> stacked vector is proved for all four types and both flags; with the constraint built in the derivative of POVM / mprocess has an extra "
     "-t term on the implied block (povm_stacked_derivative, mprocess_stacked_derivative) that the library's one-hot gradient does not contain "
     "- an observation, not a C03 clause",
+    "generate_from_var_flag_resolution is about a fixed template emitted after the translator matched the source expression: a source edit "
+    "breaks the translator (reported as a broken obligation), not the proof",
+    "stacked vectors shorter than one HS (flag on) and dimension 0 are outside the modelled domain of mpVarOfStacked (model returns none, numpy "
+    "does not raise); the value conversions are a hand model tied to the code by the correspondence only",
 ]
 
 
